@@ -46,7 +46,7 @@ EXPR_POOL = [
     "r#\"->\"#", "1.0e3", "0x1f", "core::convert::identity", "|(a, b)| a", "|&v| v", "|v| v.0",
     "|v| -> Result<u8, ()> { Ok(v) }", "x?.y", "f(a, b)(c)", "S { a: 1, b: 2 }", "(S { a: 1 })",
     "|v| S { a: v }", "return_closure()", "|v| v >> 1", "|v| v > 1", "|v| 1 < v", "|v| v >= 1 && v <= 9",
-    "|v| v..=9", "x?", "a()?", "foo.bar(1)?", "|v| v?", "x?.y?", "|v| -v", "|v| !v", "a => b", "|v| v as Vec<u8>", "a -> b", "a |> b", "0..3", "..", "a, b",
+    "|s| s.map", "then", "x.and_then", "|and_then| and_then", "opt.map", "|v| v..=9", "x?", "a()?", "foo.bar(1)?", "|v| v?", "x?.y?", "|v| -v", "|v| !v", "a => b", "|v| v as Vec<u8>", "a -> b", "a |> b", "0..3", "..", "a, b",
 ]
 MEMBER_POOL = ["len()", "0", "unwrap_or(3)", "iter().map(|v| v + 1)", "foo::<Vec<Vec<u8>>>(a, b)", "x", "into_iter()", "and_then(|v| Some(v))", "1.0", "clone().len()", "unwrap_or_else(|| 7)", "max(1, 2)", "await"]
 TYPE_POOL = ["Vec<_>", "Vec<Vec<Vec<u8>>>", "std::collections::HashMap<u8, Vec<u8>>", "(u8, u8)", "[u8; 3]", "Box<dyn Fn(u8) -> u8>", "_", "String", "&'static str", "<T as Tr>::Out", "fn(u8) -> u8", "Option<fn() -> u8>", "impl Iterator<Item = u8>"]
@@ -279,7 +279,8 @@ def pools_from(admitted):
     member = [e for i, e in enumerate(MEMBER_POOL) if "m%d" % i in adm]
     typ = [e for i, e in enumerate(TYPE_POOL) if "t%d" % i in adm]
     handler = [e for i, e in enumerate(HANDLER_POOL) if "h%d" % i in adm]
-    initial = [e for e in expr if not e.startswith("|") and not e.startswith("move")]
+    # a bare `map` / `then` / `and_then` in front of `=>` at the start of a branch *is* a handler
+    initial = [e for e in expr if not e.startswith("|") and not e.startswith("move") and e not in ("map", "then", "and_then")]
     return expr, member, typ, handler, initial
 
 
@@ -370,6 +371,23 @@ def rt_cases(rng, pools, tier):
                 inp2.branches = [br2, g.branch(1)]
                 inp2.handler = ("map", rng.choice(g.handler), 1)
                 cases.append(inp2)
+    # identifiers that look like handler keywords at the end of an operand, directly in front of `=>` / `=>[]`
+    for opnd in [e for e in g.expr if e.split(".")[-1].split(" ")[-1] in ("map", "then", "and_then")]:
+        for follower in ("AndThen", "Collect"):
+            for deferred in (False, True):
+                br = Branch()
+                br.initial = rng.choice([e for e in g.initial if e not in QOPERANDS])
+                br.members = [Member("Map", "|>", [opnd], False, False), g.member_for(follower, deferred)]
+                inp = Input()
+                inp.branches = [br]
+                cases.append(inp)
+        if opnd in g.initial:
+            br = Branch()
+            br.initial = opnd
+            br.members = [g.member_for("AndThen")]
+            inp = Input()
+            inp.branches = [br, g.branch(1)]
+            cases.append(inp)
     for init in g.initial:
         br = Branch()
         br.initial = init
